@@ -31,7 +31,7 @@ m = {
                  "kind_free_text": "own symbolic executor for Go SSA (go/ssa) with SMT back ends z3 4.8.12, z3 5.1.0, cvc5 1.0.3"}],
     "checks": checks,
     "not_applicable": nas,
-    "notes": "All checks are bounded symbolic model checking of the real code; bounds and what lies outside them are in DESIGN.md §6 and in each evidence file.",
+    "notes": "All checks are bounded symbolic model checking of the real code; bounds and what lies outside them are in each harness/<id>/harness.json (copied into the evidence on every run) and in DESIGN.md §0.4 / §6; fixed defects and known findings are in known_findings.json, seeded changes and which check catches them in DESIGN.md §11.",
 }
 json.dump(m, open(os.path.join(ROOT, "MANIFEST.json"), "w"), indent=1)
 print("claimed:", [c["property_id"] for c in checks]); print("not applicable:", [n["property_id"] for n in nas])
